@@ -20,6 +20,7 @@ class LoopBudgetError(RuntimeError):
 
 
 LOOP_BUDGET = 200000
+SIZEOF_UNIT = 7919          # stands for sizeof(T) in the transliteration: an allocation of n * sizeof(T) bytes is n * 7919, and anything that is not a multiple is a malformed size
 _LOOP_COUNT = {}
 
 
@@ -474,7 +475,7 @@ def _post(ln):
     ln = _CAST.sub('', ln)
     ln = _conv_addr(ln)
     ln = re.sub(r'\bNULL\b', 'None', ln)
-    ln = re.sub(r'\bsizeof\(([^)]*)\)', '1', ln)
+    ln = re.sub(r'\bsizeof\(([^)]*)\)', '_SIZEOF_UNIT', ln)      # a marker unit (see SIZEOF_UNIT): allocation stubs divide by it and require a whole number of elements
     return ln
 
 
@@ -496,4 +497,4 @@ def translit_function(src, qual, newname=None):
     return code, span
 
 
-RUNTIME = {'CArr': CArr, 'Ptr': Ptr, 'Ref': Ref, 'addr': addr, 'ExtentError': ExtentError, 'prange': range, '_cint': _cint, '_cstr': _cstr, '_memview_cast': _memview_cast, '_loop_tick': _loop_tick}
+RUNTIME = {'CArr': CArr, 'Ptr': Ptr, 'Ref': Ref, 'addr': addr, 'ExtentError': ExtentError, 'prange': range, '_cint': _cint, '_cstr': _cstr, '_memview_cast': _memview_cast, '_loop_tick': _loop_tick, '_SIZEOF_UNIT': SIZEOF_UNIT}
